@@ -14,8 +14,10 @@ ASSUMPTIONS = [
     "decimal -> binary32 conversion of non-integer literals is an oracle (Section variable); the two loaders "
     "convert decimal->f32 directly vs decimal->f64->f32 and can differ by double rounding on crafted literals: "
     "NOT proved, only exercised by the differential runs",
-    "object classification order of json_read_stream.rs vs json_read.rs is not modelled; it is covered by the "
-    "two-build differential (audit listing + play) over the corpus, this compiler's output and generated programs",
+    "object classification: only the key-test sequences of the two jtoken_to_runtime_object functions are modelled "
+    "(regenerated, Gen/ClassifyGen.v); the construction of the objects after classification (json_read_stream.rs) is "
+    "not — it is covered by the two-build differential (audit listing + play) over the corpus, this compiler's "
+    "output and generated programs",
     "-0 (stream: Int 0, serde: Float -0.0) and integers outside i32 (stream: Float, serde loader: panic) are "
     "refuted in the model (Props/C14.v *_refuted); neither compiler emits such literals, so they are outside "
     "the property's quantifier and are reported as probes in the evidence, not as violations",
@@ -171,7 +173,7 @@ def text_layer_correspondence(ctx, exe_t, has_hook, n):
         impl = tokdrive(exe_t, [["tok", t, o] for t, o in cases])
         model = vlib.coq_eval_sharded(pre + f"Definition tab : list (text*Z) := {coq_tab(tab)}.\n",
                                       [f"run_tok tab {vlib.text2coq(t)} {vlib.text2coq(o)}" for t, o in cases],
-                                      shard=150, name="c14tok")
+                                      shard=max(20, len(cases) // vlib.NPROC + 1), name="c14tok")
         for (t, o), a, b in zip(cases, impl, model):
             if a != b:
                 mism.append(dict(op="tokenizer", text=t, ops=o, impl=a, model=b))
@@ -193,7 +195,7 @@ def text_layer_correspondence(ctx, exe_t, has_hook, n):
     tab = {l.replace("E", "e"): int(b[1:]) for l, b in zip(lits, fl) if b.startswith("f")}
     impl = tokdrive(exe_t, [["serde", t] for t in texts])
     model = vlib.coq_eval_sharded(pre + f"Definition tab : list (text*Z) := {coq_tab(tab)}.\n",
-                                  [f"run_parse tab {vlib.text2coq(t)}" for t in texts], shard=120, name="c14std")
+                                  [f"run_parse tab {vlib.text2coq(t)}" for t in texts], shard=max(20, len(texts) // vlib.NPROC + 1), name="c14std")
 
     def canon_big(s):
         # serde keeps integers only within i64/u64; the model keeps every integer literal
@@ -210,7 +212,7 @@ def text_layer_correspondence(ctx, exe_t, has_hook, n):
     strs = [hostile_text(rng).replace("\\\\", "\\") + chr(rng.randrange(0, 0x30)) for _ in range(n // 2)] + \
            ["".join(chr(c) for c in range(0, 0x30)), "\x7f\x80\u2028\ud7ff\ue000\U0010ffff"]
     impl = tokdrive(exe_t, [["esc", s] for s in strs])
-    model = vlib.coq_eval_sharded(pre, [f"run_serde_string {vlib.text2coq(s)}" for s in strs], shard=200, name="c14esc")
+    model = vlib.coq_eval_sharded(pre, [f"run_serde_string {vlib.text2coq(s)}" for s in strs], shard=max(20, len(strs) // 4 + 1), name="c14esc")
     for s, a, b in zip(strs, impl, model):
         if a != b:
             mism.append(dict(op="serde_string", text=s, impl=a, model=b))
@@ -320,6 +322,14 @@ def number_probes(exe_d, exe_s):
     docs = []
     for lit in ["-0", "2147483648", "-2147483649", "1.0000001192092896", "16777217", "1e2"]:
         docs.append(("probe:" + lit, '{"inkVersion":21,"root":[["ev",%s,"out","/ev","\\n","done",null],"done",null],"listDefs":{}}' % lit))
+    # key order: the streaming loader classifies an object by its FIRST key and wants
+    # inkVersion/root/listDefs in that order (Props/C14.v object_classification_*); a document whose
+    # keys were sorted (serde_json's own Map without preserve_order does that) is outside the quantifier
+    base = ('{"inkVersion":21,"root":[["^Hello","\\n","ev",{"x()":"fn","exArgs":1},"pop","/ev","done",null],"done",'
+            '{"fn":["ev",1,"/ev","~ret",null]}],"listDefs":{}}')
+    docs.append(("probe:keys-as-emitted", base))
+    docs.append(("probe:keys-sorted", json.dumps(json.loads(base), sort_keys=True, separators=(",", ":"))))
+    docs.append(("probe:exArgs-before-x()", base.replace('{"x()":"fn","exArgs":1}', '{"exArgs":1,"x()":"fn"}')))
     rd, rs = run_builds(exe_d, exe_s, docs)
     out = {}
     for (i, _), a, b in zip(docs, rd, rs):
@@ -348,8 +358,20 @@ def model_witness(exe_t, has_hook):
 
 
 # ------------------------------------------------------------------ entry points
+def fresh_tables():
+    facts = gen_tables.run(["tok", "classify"])
+    # the tie must be re-proved against the table just written, whatever the file times say
+    for rel in ["theories/Gen/TokGen.vo", "theories/Json/Tokenizer.vo", "theories/Json/TokTie.vo",
+                "theories/Json/TokenizerRun.vo", "theories/Gen/ClassifyGen.vo", "theories/Json/ClassifyTie.vo"]:
+        try:
+            os.remove(os.path.join(vlib.VERIF, rel))
+        except FileNotFoundError:
+            pass
+    return facts
+
+
 def run(ctx):
-    facts = gen_tables.run(["tok"])
+    facts = fresh_tables()
     ctx.coverage["generated_tables"] = facts
     has_hook = "verif_tokenize" in vlib.repo_file("runtime/src/verif.rs")
     exe_d = vlib.build_harness()
@@ -359,7 +381,7 @@ def run(ctx):
 
     pr = ctx.proof("theories/Props/C14.v")
 
-    n = 300 if ctx.quick() else 3000
+    n = 200 if ctx.quick() else 3000
     try:
         mism, evals, samples = text_layer_correspondence(ctx, exe_t, has_hook, n)
     except RuntimeError as e:
@@ -406,7 +428,7 @@ def run(ctx):
 
 def replay(ctx, payload):
     r = payload.get("replay", {})
-    facts = gen_tables.run(["tok"])
+    facts = fresh_tables()
     has_hook = "verif_tokenize" in vlib.repo_file("runtime/src/verif.rs")
     exe_d = vlib.build_harness()
     exe_s = vlib.build_harness(features=("stream", "tokhook") if has_hook else ("stream",))
